@@ -69,6 +69,16 @@ Definition drivers_stay (s s' : state) : Prop :=
 Definition wires_stay (s : state) (o : op) (s' : state) : Prop :=
   forall p n w, p < nobj s -> tget (owires s p) n = Some w -> subject o <> Some w -> tget (owires s' p) n = Some w.
 
+(* what a raising call must leave behind, by the conflict it reports: the item named by the error is registered
+   before and after the call (for a duplicate wire: and it is not the wire being created / moved) *)
+Definition kept (s : state) (o : op) (s' : state) (c : conflict) : Prop :=
+  match c with
+  | CChild p n => s' = s /\ exists ch, tget (ochildren s p) n = Some ch
+  | CDriver w => s' = s /\ exists q, wsource s w = Some q
+  | CWire p n => exists w', tget (owires s p) n = Some w' /\ tget (owires s' p) n = Some w' /\ subject o <> Some w'
+  | CKey _ _ => s' = s
+  end.
+
 (* ---------------------------------------------------------------- integrity *)
 (* o' is in the hierarchy below o (through the children tables, as checkIntegrity walks it) *)
 Inductive below (s : state) : nat -> nat -> Prop :=
